@@ -442,6 +442,13 @@ def r13_3(ctx: Ctx):
             loops += [(hf, nn) for nn in ast.walk(hf.node) if isinstance(nn, ast.For)
                       and _loop_over_listeners(ctx, hf, nn)]
         ctx.floor(rid, f'listener loops in {f.short}', len(loops), 2 if f is drv else 1)
+        # each notification of the protocol is actually made inside one of these loops
+        for cb in (('BeforeMethodStart', 'OnEndIteration') if f is drv else ('OnMethodStop',)):
+            made = any(isinstance(x, ast.Call) and isinstance(x.func, ast.Attribute) and x.func.attr == cb
+                       for _, nn in loops for b in nn.body for x in ast.walk(b))
+            ctx.check(made, rid, f.short, f.loc(), f'{cb} is delivered inside a loop over the listeners',
+                      f'no loop over the listeners in {f.short} calls {cb}: the listeners are never told',
+                      key=f'{rid}::{f.short}::delivers::{cb}')
         for hf, nn in loops:
             bad = [x for b in nn.body for x in ast.walk(b) if isinstance(x, (ast.Break, ast.Continue, ast.Return))]
             sliced = isinstance(nn.iter, ast.Subscript)
